@@ -74,13 +74,16 @@ C06_Checks(r) ==
 \* ---------------------------------------------------------------- C11
 C11_Checks(r) ==
   IF OutOk(r) /\ Has_(r, "self") /\ C11_Applies(r.act) /\ ~EncodedEntry(r)
-  THEN {<<"C11.frame." \o r.act, TRUE, C11_Frame(r.act, r.args, r.self, r.out.ok)>>} ELSE {}
+  THEN {<<"C11.frame." \o r.act, TRUE, C11_Frame(r.act, r.args, r.self, r.out.ok)>>,
+        <<"C11.decoded." \o r.act, TRUE, C11_DecodedFollows(r.act, r.self, r.out.ok)>>} ELSE {}
 
 \* ---------------------------------------------------------------- C15
 C15_Checks(r) ==
   IF ~OutOk(r) \/ EncodedEntry(r) THEN {}
   ELSE LET O == r.out.ok IN
-    {<<"C15.nodots", Netloc5(O) # <<>>, C15_NoDots(O)>>}
+    \* RFC 3986 5.2.2: a reference with an EMPTY path (and no authority) keeps Base.path as it is -- dot segments a verbatim
+    \* base carries are then not this operation's to remove
+    {<<"C15.nodots", Netloc5(O) # <<>> /\ ~(r.act = "join" /\ Has_(r, "other") /\ Ok(r.other) /\ Path5(V(r.other)) = <<>>), C15_NoDots(O)>>}
     \cup (IF C15_ExpectedApplies(r.act, r.args, O)
           THEN {<<"C15.rds." \o r.act, TRUE, C15_Expected(r.act, r.args, IF Has_(r, "self") THEN r.self ELSE O, O)>>} ELSE {})
     \cup (IF Netloc5(O) = <<>> /\ r.act \in {"build", "with_path"}
